@@ -5,6 +5,7 @@ import (
 	"fmt"
 	"os"
 	"path/filepath"
+	"strings"
 	"testing"
 	"time"
 
@@ -36,6 +37,9 @@ type l3Driver struct {
 	crossed  bool
 	blockDirty     bool  // a transaction was delivered into the currently open block
 	restartPending []int // replicas to SIGKILL + restart at the next block boundary
+	sidGen         int   // key generations handed out to did:sid rotations
+	govProposals   int
+	params0        string // node parameters at the start (to label applied governance changes)
 	timeJump bool        // the next block's header time is the wall clock
 }
 
@@ -74,6 +78,7 @@ func newL3(t TB, prop string, names []string) *l3Driver {
 	d.cl.ShadowSync()
 	s.OpenFirstBlock()
 	d.cl.Begin(nil)
+	d.params0 = s.W.App.NodeKeeper.GetParams(s.C.Ctx()).String()
 	return d
 }
 
@@ -166,6 +171,13 @@ func (d *l3Driver) do(a *Action) {
 	if res.OK {
 		d.okTxs++
 	}
+	if a.Kind == "did_update" || a.Kind == "report_faults" {
+		if res.OK {
+			d.labels[a.Kind+"+"]++
+		} else {
+			d.labels[a.Kind+"-:"+short(res.ErrString())]++
+		}
+	}
 	if d.restarts > 0 {
 		d.txAfterRestart++
 	}
@@ -247,6 +259,13 @@ func (d *l3Driver) nextBlock() {
 	adv := NewAction("advance", 0)
 	adv.Blocks = 1
 	d.s.Do(adv)
+	if d.govProposals > 0 {
+		cur := d.s.W.App.NodeKeeper.GetParams(d.s.C.Ctx()).String()
+		if d.params0 != "" && cur != d.params0 {
+			d.labels["gov-param-applied"]++
+			d.params0 = cur
+		}
+	}
 	if d.every {
 		d.restartPending = append(d.restartPending, 1)
 	}
@@ -285,7 +304,7 @@ func (d *l3Driver) setup() {
 func (d *l3Driver) genStep(t *rapid.T) *Action {
 	s, cfg := d.s, d.cfg
 	var a *Action
-	switch rapid.IntRange(0, 17).Draw(t, "step") {
+	switch rapid.IntRange(0, 20).Draw(t, "step") {
 	case 0, 1, 2:
 		a = cfg.GenStoreNew(t, s)
 		if a != nil {
@@ -316,6 +335,10 @@ func (d *l3Driver) genStep(t *rapid.T) *Action {
 		a = d.genFault()
 	case 15, 16:
 		a = d.residueArm(t)
+	case 17, 18:
+		a = d.sidRotationArm(t)
+	case 19:
+		a = d.govParamArm(t)
 	}
 	if a == nil {
 		a = NewAction("advance", 0)
@@ -373,6 +396,88 @@ func (d *l3Driver) residueArm(t *rapid.T) *Action {
 	y := NewAction(rapid.SampledFrom([]string{"delegate", "undelegate"}).Draw(t, "thirdOp"), p)
 	y.Target, y.Amount = v, int64(rapid.IntRange(1, 900).Draw(t, "thirdAmount"))
 	return y
+}
+
+// sidRotationArm drives one of two did:sid identities towards a key rotation (MsgUpdate): the first
+// account creates the identity, a second account is bound to it (a rotation must drop at least one
+// account and keep the payment account), then the keys are rotated. Missing steps are applied here;
+// the rotation itself is returned. Rotated identities carry version lists and past seeds.
+func (d *l3Driver) sidRotationArm(t *rapid.T) *Action {
+	s := d.s
+	pr := [][2]int{{7, 0}, {11, 1}}[rapid.IntRange(0, 1).Draw(t, "sidPair")]
+	now := uint64(d.cl.Time.Unix())
+	di := -1
+	for i, r := range s.Dids {
+		if r.Kind == "sid" && r.Acct == pr[0] {
+			di = i
+		}
+	}
+	if di < 0 {
+		a := NewAction("bind_sid", pr[0])
+		a.Ts = now - uint64(rapid.IntRange(0, 600).Draw(t, "age"))
+		return a
+	}
+	second := fmt.Sprintf("c%d", pr[1])
+	bound := false
+	for _, l := range s.Last.Did.AccountListList {
+		if l.Did == s.Dids[di].Did {
+			for _, ad := range l.AccountDids {
+				if ad == acctDid(second) {
+					bound = true
+				}
+			}
+		}
+	}
+	if !bound {
+		b := NewAction("bind_sid", pr[0])
+		b.Owner, b.Target, b.Ts = di, pr[1], now
+		d.apply(b)
+	}
+	d.sidGen++
+	u := NewAction("did_update", pr[0])
+	u.Owner, u.Ts = di, now
+	u.Extra = map[string]string{"gen": fmt.Sprint(d.sidGen), "pastSeed": fmt.Sprintf("seed-%d-%d", di, d.sidGen), "keep": fmt.Sprintf("c%d", pr[0]), "remove": second}
+	if rapid.IntRange(0, 5).Draw(t, "reuseSeed") == 0 {
+		u.Extra["pastSeed"] = "seed-shared" // the same past seed for several identities / rotations
+	}
+	d.labels["sid-rotation-arm"]++
+	return u
+}
+
+var govChanges = [][2]string{
+	{"OfflineTriggerHeight", `"3"`}, {"OfflineTriggerHeight", `"3"`}, {"OfflineTriggerHeight", `"25"`},
+	{"ShareThreshold", `"0.300000000000000000"`}, {"ShareThreshold", `"0.020000000000000000"`},
+	{"VstorageThreshold", `"1000000"`}, {"BlockReward", `{"denom":"sao","amount":"7000"}`},
+	{"MaxPenalty", `"11"`}, {"PenaltyBase", `"2"`}, {"AdjustmentPeriod", `"11"`},
+}
+
+// govParamArm: a parameter of the node module is changed by a governance proposal (submitted and
+// voted through real transactions; it passes three blocks later and is written by x/params, not
+// through the module's keeper). The last vote is returned.
+func (d *l3Driver) govParamArm(t *rapid.T) *Action {
+	if d.govProposals >= 2 {
+		return nil
+	}
+	d.govProposals++
+	ch := rapid.SampledFrom(govChanges).Draw(t, "paramChange")
+	p := NewAction("gov_param", 0)
+	p.Amount = 1000
+	p.Extra = map[string]string{"subspace": "node", "key": ch[0], "value": ch[1]}
+	if ch[0] == "BlockReward" {
+		p.Extra["value"] = strings.Replace(ch[1], "sao", d.s.W.Cfg.Denom, 1)
+	}
+	d.apply(p)
+	if !p.OK {
+		d.labels["gov-proposal-rejected"]++
+		return nil
+	}
+	v := NewAction("gov_vote", 0)
+	v.Order = p.Order
+	d.apply(v)
+	v2 := NewAction("gov_vote", 1)
+	v2.Order = p.Order
+	d.labels["gov-param-arm"]++
+	return v2
 }
 
 // genFault: a fishman (designated in the base genesis) reports a fault on a stored shard.
